@@ -419,8 +419,10 @@ def disambiguate_matching(rain_intervals, jump_intervals):
         for (rain_start, _), (jump_start, _) in zip(rain_intervals, jump_intervals)
     ]
     duration_differences = {
+        # A rain slice of n values spans n time steps; a head slice of n
+        # values spans n - 1
         (rain_start, jump_start): float(
-            (rain_stop - rain_start) - (jump_stop - jump_start)
+            (rain_stop - rain_start) - (jump_stop - jump_start - 1)
         )
         for (rain_start, rain_stop), (jump_start, jump_stop) in zip(
             rain_intervals, jump_intervals
